@@ -3,7 +3,7 @@ import json
 import os
 import time
 
-from . import facts, matrix, rules_decl
+from . import facts, matrix, rules_decl, rules_val
 from .model import Model
 from .report import EVIDENCE, Finding, RuleResult, finish
 
@@ -61,7 +61,39 @@ def c20(m, tier):
     return out
 
 
+_val_engines = {}
+
+
+def val_engine(m):
+    if id(m) not in _val_engines:
+        _val_engines[id(m)] = rules_val.ValEngine(m)
+    return _val_engines[id(m)]
+
+
+def c07(m, tier):
+    eng = val_engine(m)
+    return [rules_val.rule_val(m, eng), rules_val.rule_sanitizer(m, eng), rules_val.rule_throw_before_write(m),
+            rules_val.rule_getlabel(m), rules_decl.rule_throw(m)]
+
+
 PROPERTIES = {
+    'C07': dict(
+        level='other', fn=c07,
+        explanation='Decides, for every public entry point and every vertex argument, on every CFG path (all flag '
+                    'combinations, all label kinds): the argument passes the range sanitizer before it is used as a '
+                    'raw subscript or stored, before any graph state is written (directly or through a mutating '
+                    'callee) and before the function can return normally - a forward must-dataflow with bottom-up '
+                    'callee summaries (F-VAL); the sanitizer itself throws std::out_of_range exactly for v >= size '
+                    '(F-ORD.iv); no throw expression is reachable after a state write (F-TBW); the missing-label '
+                    'mapping of _getLabel (F-GETLABEL) and the documented exception types (D-THROW). This settles the '
+                    'throw clause and the "rejected call changes nothing" clause for vertex arguments and the '
+                    'invalid_argument cases structurally; it does not execute anything.',
+        assumptions=['values stored in adjacency lists are in range (inductively: every stored value is itself subject '
+                     'to obligation (a))', 'contents of a caller-supplied predecessor structure are the output of the '
+                     'matching search (valid-use precondition)', 'allocation does not fail'],
+        trusted_base=['clang CFG construction (setAllAlwaysAdd, short-circuit edges)', 'bgx', 'the gen rules of F-VAL '
+                      'listed in bgcheck/rules_val.py'],
+    ),
     'C18': dict(
         level='proof', fn=c18,
         explanation='Decides the property relative to the C++ const rules: with no mutable field, no const-removing '
